@@ -85,6 +85,22 @@ class Ref(V):
         self.cell = cell
 
 
+class FieldRef(V):
+    """Reference to field `idx` of a struct value (so that callee models can update it in place)."""
+
+    def __init__(self, tup, idx):
+        self.tup, self.idx = tup, idx
+
+
+def val_of(x):
+    """Look through thin references."""
+    if isinstance(x, Ref):
+        return x.cell.v
+    if isinstance(x, FieldRef):
+        return x.tup.fs[x.idx]
+    return x
+
+
 class Opaque(V):
     def __init__(self, tag=""):
         self.tag = tag
@@ -217,6 +233,8 @@ class State:
         self.locals = {}
         self.pc = []
         self.events = []
+        self.roots = {}
+        self.frames = []
 
     def fork(self):
         s = State(self.sym, self.wrapping)
@@ -227,7 +245,8 @@ class State:
         memo = {}
         for k, v in s.locals.items():
             s.locals[k] = copy_val(v, memo)
-        s.cellmap = memo
+        s.roots = {k: copy_val(v, memo) for k, v in getattr(self, "roots", {}).items()}
+        s.frames = [{k: copy_val(v, memo) for k, v in fr.items()} for fr in getattr(self, "frames", [])]
         return s
 
 
@@ -240,10 +259,16 @@ def copy_val(v, memo):
             nc.v = copy_val(c.v, memo)
         return Ref(memo[id(c)])
     if isinstance(v, Tup):
-        t = Tup([copy_val(x, memo) for x in v.fs])
+        if id(v) in memo:
+            return memo[id(v)]
+        t = Tup([])
+        memo[id(v)] = t
+        t.fs = [copy_val(x, memo) for x in v.fs]
         if hasattr(v, "sname"):
             t.sname = v.sname
         return t
+    if isinstance(v, FieldRef):
+        return FieldRef(copy_val(v.tup, memo), v.idx)
     if isinstance(v, Opt):
         return Opt(v.some, copy_val(v.payload, memo))
     return v
@@ -301,12 +326,15 @@ class Exec:
         m = re.fullmatch(r"_\d+", p)
         if m:
             if p not in st.locals:
-                raise Unsupported(f"read of unset local {p}")
+                # zero-sized values (capture-less closures, unit) are never assigned in MIR
+                return Opaque("unset:" + p)
             return st.locals[p]
         if p.startswith("(*") and p.endswith(")") and balanced(p[2:-1]):
             inner = self.read_place(st, p[2:-1])
             if isinstance(inner, Ref):
                 return inner.cell.v
+            if isinstance(inner, FieldRef):
+                return inner.tup.fs[inner.idx]
             if isinstance(inner, (Slice, Elem, Opaque)):
                 return inner
             raise Unsupported(f"deref of {inner}")
@@ -348,6 +376,9 @@ class Exec:
             inner = self.read_place(st, p[2:-1])
             if isinstance(inner, Ref):
                 inner.cell.v = val
+                return
+            if isinstance(inner, FieldRef):
+                inner.tup.fs[inner.idx] = val
                 return
             raise Unsupported(f"write through {inner}")
         if p.startswith("(") and p.endswith(")"):
@@ -446,10 +477,13 @@ class Exec:
         m = re.fullmatch(r"&(?:raw const |raw mut |mut )?(?:\(fake\) )?(.+)", rv)
         if m:
             place = m.group(1).strip()
-            try:
-                v = self.read_place(st, place)
-            except Unsupported:
-                raise
+            if place.startswith("(") and place.endswith(")"):
+                k = find_field_split(place[1:-1])
+                if k is not None:
+                    base = self.read_place(st, place[1:-1][:k[0]])
+                    if isinstance(base, Tup):
+                        return FieldRef(base, int(k[1]))
+            v = self.read_place(st, place)
             if isinstance(v, (Slice, Elem)):
                 if isinstance(v, Elem):
                     # taking the address of slice[idx]: the MIR has already asserted idx < len
@@ -482,15 +516,15 @@ class Exec:
             return Opt("true", self.operand(st, m.group(1)))
         if re.fullmatch(r"Option::<.+>::None", rv):
             return Opt("false", Opaque("none"))
+        m = re.fullmatch(r"(.+) as (.+) \((\w+(?:\(.*\))?)\)", rv)
+        if m:
+            v = self.operand(st, m.group(1))
+            return v  # pointer / unsize casts keep the abstract value
         m = re.fullmatch(r"(copy|move|no_retag) .+", rv)
         if m:
             return self.operand(st, rv)
         if rv.startswith("const "):
             return self.operand(st, rv)
-        m = re.fullmatch(r"(.+) as (.+) \((\w+(?:\(.*\))?)\)", rv)
-        if m:
-            v = self.operand(st, m.group(1))
-            return v  # pointer / unsize casts keep the abstract value
         m = re.fullmatch(r"[\w:]+(?:::<.+>)? \{ (.+) \}", rv)
         if m:
             fields = split_top(m.group(1))
@@ -507,16 +541,20 @@ class Exec:
         frame = {}
         for (l, _t), v in zip(f.args, args):
             frame[l] = v
-        saved = st.locals
+        st.frames = list(st.frames) + [st.locals]
         st.locals = frame
         results = []
         self._block(f, "bb0", st, results, set(), depth)
         for r in results:
-            r.state.locals = saved
+            r.state.locals = r.state.frames[-1]
+            r.state.frames = r.state.frames[:-1]
         return results
 
     def _block(self, f, bb, st, results, visited, depth):
         if bb in visited:
+            if getattr(self, "cut_loops", False):
+                results.append(Outcome("cut", st, msg=f"loop back edge to {bb}"))
+                return
             raise Unsupported(f"back edge to {bb} in {f.name}: loops are outside Engine B")
         visited = visited | {bb}
         self.paths += 1
@@ -808,24 +846,21 @@ def model_unwrap(ex, st, callee, args, ty):
 
 
 def model_deref_vec(ex, st, callee, args, ty):
-    v = args[0]
-    tgt = v.cell.v if isinstance(v, Ref) else v
+    tgt = val_of(args[0])
     if isinstance(tgt, Slice):
         return m_ret(st, tgt)
     raise Unsupported(f"deref of {tgt}")
 
 
 def model_len(ex, st, callee, args, ty):
-    v = args[0]
-    tgt = v.cell.v if isinstance(v, Ref) else v
+    tgt = val_of(args[0])
     if isinstance(tgt, Slice):
         return m_ret(st, Int(tgt.len))
     raise Unsupported(f"len of {tgt}")
 
 
 def model_is_empty(ex, st, callee, args, ty):
-    v = args[0]
-    tgt = v.cell.v if isinstance(v, Ref) else v
+    tgt = val_of(args[0])
     if isinstance(tgt, Slice):
         return m_ret(st, Bool(f"(= {tgt.len} 0)"))
     raise Unsupported(f"is_empty of {tgt}")
@@ -833,7 +868,7 @@ def model_is_empty(ex, st, callee, args, ty):
 
 def model_get_unchecked(ex, st, callee, args, ty):
     sl, idx = args
-    sl = sl.cell.v if isinstance(sl, Ref) else sl
+    sl = val_of(sl)
     if not isinstance(sl, Slice):
         raise Unsupported(f"get_unchecked on {sl}")
     s = st.fork()
@@ -859,7 +894,7 @@ def model_get_unchecked(ex, st, callee, args, ty):
 def model_index_range(ex, st, callee, args, ty):
     """Checked slicing `&s[a..b]` through Index::index: panics when out of range."""
     sl, idx = args
-    sl = sl.cell.v if isinstance(sl, Ref) else sl
+    sl = val_of(sl)
     if not isinstance(sl, Slice):
         raise Unsupported(f"index on {sl}")
     if isinstance(idx, Tup) and len(idx.fs) == 2:
@@ -887,7 +922,7 @@ def model_index_range(ex, st, callee, args, ty):
 
 def model_split_at(ex, st, callee, args, ty):
     sl, mid = args
-    sl = sl.cell.v if isinstance(sl, Ref) else sl
+    sl = val_of(sl)
     if not isinstance(sl, Slice):
         raise Unsupported("split_at on non-slice")
     ok = f"(<= {mid.t} {sl.len})"
